@@ -527,7 +527,11 @@ class Interp:
                 raise Untranslatable('division by a concrete zero')
             r = {'Add': a + b, 'Sub': a - b, 'Mul': a * b, 'Rem': a % b if b else 0, 'Div': a // b if b else 0}[m.group(1)]
             if 'WithOverflow' in rv.split('(')[0]:
-                return [r, not (0 <= r < 2 ** 64)]      # usize indices / counters
+                mt = re.search(r'_(usize|isize|u8|u32|i32|u64|i64)\b', rv)
+                ty = mt.group(1) if mt else 'usize'
+                bits = {'usize': 64, 'isize': 64, 'u64': 64, 'i64': 64, 'u32': 32, 'i32': 32, 'u8': 8}[ty]
+                lo, hi = (-(2 ** (bits - 1)), 2 ** (bits - 1)) if ty[0] == 'i' else (0, 2 ** bits)
+                return [r, not (lo <= r < hi)]           # concrete indices / counters
             return r
         if re.fullmatch(r'[A-Z]\w*', rv):
             return Enum(rv)                               # variant of an enum in scope (`use Ordering::*`)
@@ -683,6 +687,10 @@ class Interp:
             a, b = d[0], d[1]
             return [(z3.And(pc, a < b), Enum('Some', [Enum('Less')])), (z3.And(pc, a == b), Enum('Some', [Enum('Equal')])),
                     (z3.And(pc, a > b), Enum('Some', [Enum('Greater')]))]
+        if re.fullmatch(r'Option::<.*>::map::<.*>', c) and isinstance(d[0], Enum):
+            if d[0].variant == 'None':
+                return [(pc, Enum('None'))]
+            return [(pc2, Enum('Some', [r])) for pc2, r in self.call_closure(d[1], [d[0].fields[0]], pc, depth)]
         m = re.fullmatch(r'Option::<.*>::unwrap_or', c)
         if m and isinstance(d[0], Enum):
             return [(pc, d[0].fields[0] if d[0].variant == 'Some' else d[1])]
@@ -726,7 +734,7 @@ class Interp:
                     states = nxt
                 outs += [(p_, Enum('Some', [deref(x)])) for p_, x in states]
             return outs
-        m = re.fullmatch(r'<\w+ as Partial(?:Ord|Eq)>::(\w+)', c)
+        m = re.fullmatch(r'<[\w:]+ as Partial(?:Ord|Eq)>::(\w+)', c)
         if m:
             op = {'gt': 'Gt', 'lt': 'Lt', 'ge': 'Ge', 'le': 'Le', 'eq': 'Eq', 'ne': 'Ne'}[m.group(1)]
             if isinstance(d[0], Enum) or isinstance(d[1], Enum):
